@@ -679,7 +679,14 @@ public:
       if (offset > this->data.max_size() - sizeof(T)) {
         throw std::length_error("offset too large");
       }
+      // v may refer to bytes inside this->data (for example a reference
+      // returned by StringReader::pget over str()), and resize() can move or
+      // free the data it refers to, so take a copy of the value first
+      char value[sizeof(T)];
+      memcpy(value, &v, sizeof(T));
       this->data.resize(offset + sizeof(T), '\0');
+      memcpy(this->data.data() + offset, value, sizeof(T));
+      return;
     }
     memcpy(this->data.data() + offset, &v, sizeof(v));
   }
